@@ -13,12 +13,12 @@ KINDS = {"UnDirectedEdge": "U", "SymUnd": "U", "DirectedEdge": "D", "SymDir": "D
 POS = ("v1", "v2", "both")
 DIRS = ("FORWARD", "BACKWARD", "ANY", "UNDEFINED")
 UHS = ("NONNEIGHBOR", "NEIGHBOR", "ERROR")
-FILTERS = ("none", "accept", "reject")
+FILTERS = ("none", "accept", "reject", "accept-falsy", "reject-falsy")
 
 
 def expected(kind, pos, d, uh, filt):
     """-> 'OE' | 'nothing' | 'NotImplementedError' | set of acceptable outcomes | None (don't care)."""
-    F = filt != "reject"
+    F = not filt.startswith("reject")
     if d == "UNDEFINED":
         return None
     if d == "ANY":
@@ -51,9 +51,26 @@ def consts(h):
     return c
 
 
-def mkfilter(mode, rejects=()):
+class FalsyCB:
+    """Wrapper giving a FalsyCallable object the .calls interface of a Callback."""
+
+    def __init__(self, h, answer):
+        self.obj = h.I.call(h.sym["FalsyCallable"], [answer], {})
+
+    @property
+    def calls(self):
+        return [(list(t.items), {}) for t in self.obj.fields["calls"].items]
+
+
+def cbval(cb):
+    return cb.obj if isinstance(cb, FalsyCB) else cb
+
+
+def mkfilter(mode, rejects=(), h=None):
     if mode == "none":
         return None
+    if mode.endswith("-falsy"):
+        return FalsyCB(h, mode.startswith("accept"))
     if mode == "accept":
         return Callback("filterfunc", lambda I, n, a, k: True)
     if mode == "reject":
@@ -93,7 +110,9 @@ def replay_snippet(rows, d, uh, filt):
             L.append(f"b{i} = Vertex()")
         ends = {"v1": f"a, b{i}", "v2": f"b{i}, a", "both": "a, a"}[pos]
         L.append(f"L{i} = {cls}({ends})")
-    f = {"none": "None", "accept": "lambda e, v: True", "reject": "lambda e, v: False"}.get(filt, "lambda e, v: e is L0")
+    f = {"none": "None", "accept": "lambda e, v: True", "reject": "lambda e, v: False",
+         "accept-falsy": "type('F', (), {'__call__': lambda s, e, v: True, '__len__': lambda s: 0})()",
+         "reject-falsy": "type('F', (), {'__call__': lambda s, e, v: False, '__len__': lambda s: 0})()"}.get(filt, "lambda e, v: e is L0")
     dd = {"FORWARD": "helpers.DIR_SENS_FORWARD", "BACKWARD": "helpers.DIR_SENS_BACKWARD", "ANY": "helpers.DIR_SENS_ANY"}.get(d, "99")
     L.append(f"print(helpers.neighbors(a, {dd}, helpers.LNK_UNKNOWN_{uh}, {f}))")
     return "\n".join(L)
@@ -120,9 +139,9 @@ def run(ctx):
         exp = expected(kind, pos, d, uh, filt)
         h.reset()
         a, links, others = build(h, [(cls, pos)])
-        cb = mkfilter(filt)
         try:
-            out = h.call(fn, a, C[d], C[uh], cb)
+            cb = mkfilter(filt, h=h)
+            out = h.call(fn, a, C[d], C[uh], cbval(cb))
         except Unknown as u:
             res.ob(False)
             res.undecide(f"{FN} row {cls},{pos},{d},{uh},{filt}: {u}")
@@ -217,7 +236,7 @@ def run(ctx):
                 res.violation("OTHER", "edgegraph.structure.twoendedlink.TwoEndedLink.other", f"end={case}",
                               f"other(a) on ends {show(Seq(ends))} gives {out!r}, expected {show(want)}")
     res.rule("OTHER", 15)
-    common.vacuity(res, "TABLE", 540)
+    common.vacuity(res, "TABLE", 900)
     res.explanation = ("Every abstract input class of neighbors() (540 single-link rows, their FORWARD/BACKWARD mirror images, and ordered pairs of "
                        "rows with selective filters) was evaluated on the current source under abstract semantics and compared with the table "
                        "transcribed from the statement; the for-loop over vert.links treats each link independently (composition rows), so the "
@@ -259,6 +278,6 @@ def derive_single(h, C, fn, cls, pos, d, uh, filt):
     """Derived contribution of one link (used by C09's relational check)."""
     h.reset()
     a, links, others = build(h, [(cls, pos)])
-    cb = mkfilter(filt)
-    out = h.call(fn, a, C[d], C[uh], cb)
+    cb = mkfilter(filt, h=h)
+    out = h.call(fn, a, C[d], C[uh], cbval(cb))
     return classify(out, others[0], a)
